@@ -131,6 +131,10 @@ def stepCmd (c : CmdSt) : List String → CmdSt × String
                  devs := (List.range ndev).map fun k => { name := k } },
          live := true, simple := simple = "1", ndev := ndev }, "ok")
     | _, _, _, _ => (c, "bad-op")
+  | ["fullqueue"] =>
+    -- the client's request queue is full from now on: try_ calls fail, blocking calls wait and get
+    -- through; every hand-over of this model is a blocking call, so nothing changes
+    (c, if c.live then "ok" else "bad-op")
   | rest =>
     if !c.live then (c, "bad-op") else
     match rest with
